@@ -173,9 +173,16 @@ def runMany (env : Env) : Nat → Nat → Ctx → G → Pos → Option (Pos × L
       | none => some (p1, t1)
 end
 
+/-- Python `str.expandtabs()` (tab stops every 8 columns; the column restarts after LF and CR):
+    `parseString` expands tabs before parsing -/
+def expandTabs : List Char → Nat → List Char
+  | [], _ => []
+  | '\t' :: cs, col => List.replicate (8 - col % 8) ' ' ++ expandTabs cs 0
+  | c :: cs, col => c :: expandTabs cs (if c == '\n' || c == '\r' then 0 else (col + 1) % 8)
+
 /-- `document.parseString(text).asList()` -/
 def parseDoc (env : Env) (doc : G) (text : String) : Option (List Tree) :=
-  let cs := text.toList
+  let cs := expandTabs text.toList 0
   match run env (4 * cs.length + 200) {} doc { rest := cs } with
   | some (_, ts) => some ts
   | none => none
